@@ -25,6 +25,7 @@ for old, new in hunks:
     fo, fn = '\n'.join(old) + '\n', '\n'.join(new) + '\n'
     assert src.count(fo) == 1, (sid, 'hunk anchor not unique', src.count(fo), fo[:80])
     edits.append({'find': fo, 'replace': fn})
+edits.reverse()  # bottom-up: an upper hunk's new text cannot disturb the anchors of the hunks below it
 seed = {'id': sid, 'rules': rules, 'file': f, 'find': edits[0]['find'], 'replace': edits[0]['replace'], 'expect': expect}
 if len(edits) > 1: seed['edits'] = edits[1:]
 if benign: seed['benign'] = True
